@@ -139,7 +139,7 @@ def run(ck):
     # generators: crashes off, Emit on
     mod, cfg = kv_module(ck, "gen2", MaxOps=2, MaxCrash=0, Emit=True, NE=2, invariants=["EmitInv"])
     jobs.append(("kv_gen2", mod, cfg, dict(workers=2)))
-    nsim = 150 if thorough else 30
+    nsim = 150 if thorough else 40
     mod, cfg = kv_module(ck, "gen5", MaxOps=5 if thorough else 4, MaxCrash=0, Emit=True, NK=3, NV=3, NE=2,
                          invariants=["EmitInv"])
     jobs.append(("kv_gen5", mod, cfg, dict(workers=2, simulate="num=%d" % nsim, depth=60, seed=ck.seed)))
@@ -200,11 +200,11 @@ def run(ck):
         b_cases += [("kv maxlog=90 big=0", h) for h in long_list[60:90]] + [("json", h) for h in j_list[:60]]
         c_cases = [("kv maxlog=0 big=1", h) for h in long_list[:80]]
     else:
-        a_cases = [("kv maxlog=0 big=0", h) for h in pair_list[:110]] + [("kv maxlog=0 big=0", h) for h in long_list[:70]]
-        a_cases += [("kv maxlog=90 big=0", h) for h in long_list[70:95]]
-        a_cases += [("json", h) for h in j_list[:80]]
-        b_cases = [("kv maxlog=0 big=0", h) for h in (interesting[:8] + long_list[:8])] + [("json", h) for h in j_list[:6]]
-        c_cases = [("kv maxlog=0 big=1", h) for h in long_list[:10]]
+        a_cases = [("kv maxlog=0 big=0", h) for h in pair_list[:250]] + [("kv maxlog=0 big=0", h) for h in long_list[:110]]
+        a_cases += [("kv maxlog=90 big=0", h) for h in long_list[70:110]]
+        a_cases += [("json", h) for h in j_list[:150]]
+        b_cases = [("kv maxlog=0 big=0", h) for h in (interesting[:12] + long_list[:12])] + [("json", h) for h in j_list[:10]]
+        c_cases = [("kv maxlog=0 big=1", h) for h in long_list[:16]]
     a_cases = [(c, h) for c, h, _ in probes] + a_cases
     b_cases = [(c, h) for c, h, _ in probes] + b_cases
     runs = [("A", a_cases, 1, "all", "spread", 200000), ("B", b_cases, 2, "all" if thorough else "spread", "spread", 60000),
@@ -291,8 +291,11 @@ def validate_execs(ck, tag, kind, execs, max_reject=4):
             with open(p, "w") as f:
                 for _, lines in chunk:
                     f.writelines(lines)
-            v = vf.validate_trace(os.path.join(SPECDIR, spec + ".tla"), os.path.join(SPECDIR, spec + ".cfg"), p,
-                                  tag="C11_val_%s_%s_%d" % (tag, kind, i), timeout=1500)
+            for attempt in (1, 2):
+                v = vf.validate_trace(os.path.join(SPECDIR, spec + ".tla"), os.path.join(SPECDIR, spec + ".cfg"), p,
+                                      tag="C11_val_%s_%s_%d" % (tag, kind, i), timeout=1500)
+                if not v.error:
+                    break
             if v.error:
                 raise vf.Infra("trace validation error: " + v.error)
             if v.accepted:
@@ -326,6 +329,7 @@ def expected_calls(fops):
 def judge(ck, name, cases, out_path, expect):
     by = split_by_store(out_path)
     drift = 0
+    died = 0
     seen_case = set()
     for kind in ("kv", "json"):
         execs = by[kind]
@@ -335,10 +339,12 @@ def judge(ck, name, cases, out_path, expect):
         ok_execs = []
         for case, lines in execs:
             if any('"e":"Crashed"' in l for l in lines):
-                cl = case_line(cases, case)
-                rp = ck.save_replay("%s_died_%d" % (name, case), {"trace.ndjson": "".join(lines), "case.txt": cl + "\n"})
-                ck.violation("the store process died (signal / abort) while recovering or continuing: %s | %s" % (
-                    cl, lines[-2].strip()[:200]), rp)
+                died += 1
+                if died <= 3:
+                    cl = case_line(cases, case)
+                    rp = ck.save_replay("%s_died_%d" % (name, case), {"trace.ndjson": "".join(lines), "case.txt": cl + "\n"})
+                    ck.violation("the store process died (signal / abort) while recovering or continuing: %s | %s" % (
+                        cl, lines[-2].strip()[:200]), rp)
                 continue
             ok_execs.append((case, lines))
             # model drift: level-0 execution of a history whose file operations the model predicted
